@@ -55,6 +55,14 @@ def run(chk, prog, tier):
                 if EFF.lvalue_root(strip(x, casts=True))[0] in cur + [p["name"] for p in prog.params(drv) if "char" in qtype(p)]:
                     chk.require(callee_name(c) == roles.line_parser, "CASE", "CASE/driver/%s" % callee_name(c), loc_str(c),
                                 "the driver hands the program text only to the line parser", "passed to %s" % callee_name(c))
-    chk.explanation = ("Decides the case clause only: every character stored into the filtered line buffer is tolower() of the "
+    # blanks / line ends: the scan never depends on the raw column; CR, LF and CRLF end a line and leave the rest for the next call
+    from valib import scan as SC
+    SC.column_independence_rule(chk, prog, roles)
+    SC.noswallow_rule(chk, prog, roles)
+    chk.explanation = ("Decides the case clause: every character stored into the filtered line buffer is tolower() of the "
                        "input and nothing downstream of the filter ever sees the raw text, so no later stage can depend on letter "
-                       "case. NOT decided: blanks, comments, CR/LF, labels and number radix (a hand-written scanner over values).")
+                       "case. Also decides (COLUMN) that no condition of the filter uses the raw-text cursor as a value "
+                       "(so where a line is cut cannot depend on how many blanks precede or separate its tokens) and (LINE) by a "
+                       "prefix-concrete abstract interpretation that LF and CR each end a line consuming exactly themselves, so CRLF is an "
+                       "LF line followed by an empty line. NOT decided: blank removal inside the filter's states, comments beyond their "
+                       "introducer stopping the filter, labels and number radix (a hand-written scanner over values).")
